@@ -11,9 +11,11 @@ package main
 import (
 	"fmt"
 	"strings"
+	"time"
 
 	"github.com/shopspring/decimal"
 	"github.com/verily-src/fhirpath-go/fhirpath"
+	"github.com/verily-src/fhirpath-go/fhirpath/evalopts"
 	"github.com/verily-src/fhirpath-go/fhirpath/system"
 	"github.com/verily-src/fhirpath-go/internal/fhir"
 )
@@ -22,6 +24,7 @@ type evGen struct {
 	r    *RNG
 	vars map[string]system.Collection
 	hit  map[string]int
+	clock time.Time
 }
 
 var evInts = []int32{0, 1, 2, 3, -1, 5, 7, 10, 46341, -46341, 65536, maxI32, minI32 + 1, 2, 1}
@@ -234,6 +237,17 @@ func (g *evGen) numExpr(d int) string {
 	case 5:
 		g.note("toDecimal")
 		return g.anyScalar(d-1) + ".toDecimal()"
+	case 6:
+		g.note("round")
+		switch g.r.Intn(4) {
+		case 0:
+			return g.numExpr(d-1) + ".round()"
+		case 1:
+			return g.anyScalar(d-1) + ".round(" + g.intExpr(d-1) + ")"
+		case 2:
+			return g.wrap(g.numExpr(d-1)+" / "+g.numExpr(d-1)) + ".round(" + Pick(g.r, []string{"0", "1", "2", "3", "15", "16", "17", "2147483647", "-1", "%e", "%i"}) + ")"
+		}
+		return g.numExpr(d-1) + ".round(" + Pick(g.r, []string{"0", "1", "2", "5"}) + ")"
 	}
 	return g.decLit()
 }
@@ -269,6 +283,12 @@ func (g *evGen) strExpr(d int) string {
 	case 5:
 		g.note("concat-empty")
 		return g.wrap(g.strExpr(d-1) + " & " + Pick(g.r, []string{"{}", "%e", "%s.where(false)"}))
+	case 8:
+		g.note("upper-lower")
+		if g.r.Intn(4) == 0 {
+			return g.anyScalar(d-1) + Pick(g.r, []string{".upper()", ".lower()"})
+		}
+		return g.strExpr(d-1) + Pick(g.r, []string{".upper()", ".lower()", ".upper().lower()", ".lower().upper()"})
 	}
 	return g.strLit()
 }
@@ -372,6 +392,11 @@ var evOdd = []string{
 	"'1.5'.toDecimal()", "'1e3'.toDecimal()", "'.5'.toDecimal()", "'5.'.toDecimal()", "'-0.50'.toDecimal()", "'abc'.toDecimal()", "true.toDecimal()", "7.toDecimal()", "'true'.toBoolean()", "'T'.toBoolean()", "'yes'.toBoolean()", "'maybe'.toBoolean()", "1.toBoolean()", "2.toBoolean()", "1.0.toBoolean()", "0.0.toBoolean()", "0.5.toBoolean()",
 	"%i.toString()", "%e.toString()", "%e.toInteger()", "%i.toInteger()", "%m.select($this.toString())", "%m.select($this.toInteger())", "%m.select($this.toDecimal())", "%m.select($this.toBoolean())", "%m.select($this.convertsToInteger())", "%m.select($this.convertsToDecimal())", "%m.select($this.convertsToBoolean())", "%m.select($this.convertsToString())",
 	"%i.convertsToInteger()", "%e.convertsToInteger()", "'x'.convertsToInteger()", "'7'.convertsToInteger()", "1.toString(1)", "1.toInteger(1)",
+	"'abc'.upper()", "'aBc'.lower()", "''.upper()", "'a1-Z'.upper()", "'héllo'.upper()", "%e.upper()", "%s.upper()", "1.upper()", "true.lower()", "'abc'.upper(1)", "'ab'.upper().lower() = 'ab'", "%s.select($this.upper())", "%m.select($this.lower())", "'z{`@['.upper()", "'Z{`@['.lower()",
+	"1.5.round()", "2.5.round()", "(-2.5).round()", "(-0.5).round()", "1.round()", "1.round(2)", "1.round(-1)", "1.5.round(-1)", "'a'.round()", "true.round()", "%e.round()", "%i.round()", "%e.round(-1)", "1.25.round(1)", "1.35.round(1)", "(-1.25).round(1)", "1.5.round(1)", "1.50.round(1)", "1.50.round(5).toString()", "1.5.round(2147483647)",
+	"1.5.round(%e)", "1.5.round(%i)", "1.5.round('a')", "1.5.round(1.0)", "1.5.round(%unknown)", "%e.round(%unknown)", "(1 'mg').round()", "(10 / 3).round(3)", "(2 / 3).round(16)", "(2 / 3).round(15)", "0.5.round()", "0.49999.round()", "1.005.round(2)", "99999999999.5.round()", "1.5.round(1, 2)", "1.round().toString()", "(1.0 * 1.0).round(1).toString()",
+	"now()", "today()", "timeOfDay()", "now() = now()", "today() = today()", "timeOfDay() = timeOfDay()", "now().toDate() = today()", "now().toString()", "today().toString()", "timeOfDay().toString()", "now() > today()", "now() >= today()", "today() + 1 day > today()", "now() + 1 month", "today() - 1 year", "timeOfDay() + 1 hour",
+	"%e.now()", "%i.today()", "%i.select(now())", "%i.where(today() = today())", "now(1)", "today({})", "now().toTime()", "now() is DateTime", "today() is Date", "timeOfDay() is Time", "now().toDateTime() = now()", "%t.select($this < today())", "%dt.select($this < now())", "%tm.select($this < timeOfDay())", "now().count()", "iif(now() = now(), 1, 2)",
 	"@2020 + 1", "1 + @2020", "@2020 + @2021", "@2020 * 2 days", "@2020 / 0", "2 days + @2020", "@2020 - @2019", "@T10 + 1 day", "@T23:30 + 1 hour", "@T00:30 - 1 hour", "@T10 + 90 minutes", "@T10:30 + 30 seconds",
 	"@2020-01-31 + 1 month", "@2020-02-29 + 1 year", "@2020-02-29 - 4 years", "@2020-02-29 + 100 years", "@2020-03-31 - 1 month", "@2020 + 11 months", "@2020 + 12 months", "@2020-01 + 45 days", "@2020-01-01 + 1 hour", "@2020-01-01 + 1.5 days", "@2020-01-01 + 1 'mg'", "@2020-01-01 + 1 'd'",
 	"@2020-01-31T10:00:00+05:30 + 1 month", "@2019-12-31T23:30:00-03:30 + 1 hour", "@2020-02-29T10:30 + 36 hours", "@2020-02-29T10 + 90 minutes", "@2020T + 1 day", "@2020-02-29T10:30:00 + 500 milliseconds", "@2020-02-29T10:30:00.000 + 1 millisecond", "@2020-02-29T10:30:00Z - 1 second",
@@ -431,6 +456,9 @@ func (g *evGen) temporalExpr(d int) string {
 	base := g.temporalLit()
 	if g.r.Intn(5) == 0 {
 		base = Pick(g.r, []string{"%t.first()", "%t.last()", "%t[1]", "%dt.first()", "%tm.first()"})
+	} else if g.r.Intn(6) == 0 {
+		g.note("clock")
+		base = Pick(g.r, []string{"now()", "today()", "timeOfDay()", "%e.now()", "%t.today()", "%i.timeOfDay()"})
 	}
 	for k := g.r.Intn(3); k > 0 && d > 0; k-- {
 		q := Pick(g.r, evQtys)
@@ -466,6 +494,12 @@ func (g *evGen) temporalProg(d int) string {
 	return g.temporalExpr(d) + " is " + Pick(g.r, []string{"Date", "DateTime", "Time", "System.Date", "Quantity", "System.Any", "dateTime", "date"})
 }
 
+// clock readings handed to Evaluate through OverrideTime; the model gets the text ctx.Now.Format(...) gives
+var evClocks = []string{"2020-02-29T10:30:00.000Z", "2020-02-29T23:59:59.999+05:30", "2019-12-31T23:30:00.123-03:30", "2021-01-01T00:00:00.000+14:00",
+	"2000-02-29T12:00:00.500-11:00", "1999-12-31T23:59:59.999Z", "2024-03-10T02:30:00.001-00:30", "0001-01-01T00:00:00.000Z", "9999-12-31T23:59:59.999Z"}
+
+const evClockLayout = "2006-01-02T15:04:05.000Z07:00"
+
 func (g *evGen) envLine() string {
 	names := []string{"i", "i2", "d", "s", "s2", "b", "m", "e", "one", "t", "dt", "tm", "q"}
 	parts := []string{}
@@ -476,12 +510,14 @@ func (g *evGen) envLine() string {
 		}
 		parts = append(parts, hexs(n)+"="+strings.Join(toks, ","))
 	}
+	parts = append(parts, hexs("\x00now")+"=S:"+hexs(g.clock.Format(evClockLayout)))
 	return strings.Join(parts, ";")
 }
 
 func (g *evGen) newEnv() {
 	n := func(max int) int { return g.r.Intn(max + 1) }
 	g.vars = map[string]system.Collection{}
+	g.clock, _ = time.Parse(evClockLayout, Pick(g.r, evClocks))
 	mk := func(name string, k int, f func() system.Any) {
 		c := system.Collection{}
 		for j := 0; j < k; j++ {
@@ -553,6 +589,7 @@ func evStream(c *Ctx, n int) {
 		for name, v := range g.vars {
 			opts = append(opts, envVar(name, v))
 		}
+		opts = append(opts, evalopts.OverrideTime(g.clock))
 		envLine = g.envLine()
 	}
 	fresh()
